@@ -7,12 +7,12 @@ open Asts Asts.L1c
 theorem normC_of_normCB {h : Hashing} {i : SyncIn} (hb : normCB h i = true) : NormC h i := by
   unfold normCB at hb
   simp only [Bool.and_eq_true, List.all_eq_true, decide_eq_true_eq, beq_iff_eq, Bool.not_eq_true', Bool.or_eq_true] at hb
-  obtain ⟨⟨⟨⟨⟨⟨⟨⟨hspec, hpods⟩, hmax⟩, hdist⟩, hrev⟩, hsm⟩, hsmR⟩, hsmB⟩, hgone⟩ := hb
+  obtain ⟨⟨⟨⟨⟨⟨hspec, hpods⟩, hdist⟩, hrev⟩, hsm⟩, hsmR⟩, hgone⟩ := hb
   have hs := (specOk_iff i).1 hspec
-  refine ⟨hs, ?_, ?_, ?_, ?_, hsm, hsmR, hsmB, hgone⟩
+  refine ⟨hs, ?_, ?_, ?_, ?_, hsm, hsmR, hgone⟩
   · intro c hc
     obtain ⟨⟨⟨⟨⟨⟨a1, a2⟩, a3⟩, a4⟩, a5⟩, a6⟩, a7⟩ := hpods c hc
-    exact ⟨a1, a2, a3, a4, a5, hmax c hc, a6, a7⟩
+    exact ⟨a1, a2, a3, a4, a5, a6, a7⟩
   · unfold distinctOrdsC at hdist
     apply nodup_of_eraseDups_length
     simpa using hdist
@@ -149,11 +149,11 @@ theorem parK_of_normB_settled {h : Hashing} {i : SyncIn} (hb : normB h (settle i
   unfold normB at hb
   simp only [Bool.and_eq_true] at hb
   obtain ⟨⟨⟨h1, hp⟩, h2⟩, h3⟩ := hb
-  exact ⟨⟨normC_of_normCB h1, settle_idPos i, settle_settled i, by simpa [roomB] using h2⟩, h3, partOk_of_partB hp⟩
+  exact ⟨⟨normC_of_normCB h1, idOk_of_idPos (settle_idPos i) (normC_of_normCB h1).small, settle_settled i, by simpa [roomB] using h2⟩, h3, partOk_of_partB hp⟩
 
 theorem monoK0_settled {h : Hashing} {i : SyncIn} (hn : NormC h (settle i)) (h2 : roomB (settle i) = true)
     (h3 : i.view.parallel = false) (h4 : noFsOutB (settle i) = true) : MonoK0 h (settle i) := by
-  refine ⟨⟨hn, settle_idPos i, settle_settled i, by simpa [roomB] using h2⟩, h3, ?_⟩
+  refine ⟨⟨hn, idOk_of_idPos (settle_idPos i) hn.small, settle_settled i, by simpa [roomB] using h2⟩, h3, ?_⟩
   intro x hx hfs
   unfold noFsOutB at h4
   rw [List.all_eq_true] at h4
